@@ -180,6 +180,13 @@ def r2(run, ctx):
         elif f.is_generator:
             run.fail('R2', f, f.node, '%s is a generator under synchronized without gen.coroutine: '
                      'the wrapper frees the slot before the body runs' % f.qualname)
+        elif isinstance(f.node, ast.AsyncFunctionDef):
+            # (an `async def` behind an eager adapter that drives it from a gen.coroutine
+            # generator has been put back into generator form by the canonical form)
+            run.fail('R2', f, f.node, '%s is a native coroutine function directly under '
+                     'synchronized: calling it only creates a coroutine object, not a Future - '
+                     'the wrapper frees the slot at once, before the body has run a line'
+                     % f.qualname)
         else:
             run.ok('R2', '%s: synchronous function' % f.qualname)
     run.count('R2', n, 10, '@synchronized functions')
